@@ -155,9 +155,9 @@ pub fn def(prop: &str) -> Option<PropDef> {
         "C14" => PropDef {
             id: "C14",
             level: "exploration",
-            rule: "One evaluation = one lint call in a history of 6-36 operations (lint, ignore the k-th current lint, edit: prepend/append/insert a paragraph or sentence, delete a character, insert a word/quote/astral character, replace a word, duplicate the text; export-clear-import of the ignore list; language switch) on a long-lived object: the core IgnoredLints+LintGroup pair driven the way harper-ls drives it, and harper_wasm::Linter. No fault or schedule dimension exists for this state (single owner, no I/O); histories against a reference model are what is simulated. Model: the set of ignored lint identities (kind, message, suggestions, priority, flagged text, texts of the tokens within two characters before and after), each tracked through the edits while its neighbourhood is untouched. Oracle after every lint: a tracked ignored lint is not reported; every lint of a fresh linter whose identity differs from all ignored ones is reported; nothing is invented; export/clear/import leaves the results unchanged. Non-trivial: at least one lint was ignored in the run. Distinct: by hash of (initial text, operation sequence).",
+            rule: "One evaluation = one lint call in a history of 6-36 operations (lint, ignore the k-th current lint, edit: prepend/append/insert a paragraph or sentence, delete a character, insert a word/quote/astral character, replace a word, duplicate the text, and - one edit in three - a word inserted, replaced or removed just beyond the tokens within two characters of an ignored lint; export-clear-import of the ignore list; language switch) on a long-lived object: the core IgnoredLints+LintGroup pair driven the way harper-ls drives it, and harper_wasm::Linter. No fault or schedule dimension exists for this state (single owner, no I/O); histories against a reference model are what is simulated. Model: the set of ignored lint identities (kind, message, suggestions, priority, flagged text, texts of the tokens within two characters before and after), each tracked through the edits while its neighbourhood is untouched. Oracle after every lint: a tracked ignored lint is not reported; every lint of a fresh linter whose identity differs from all ignored ones is reported; nothing is invented; export/clear/import leaves the results unchanged. Non-trivial: at least one lint was ignored in the run. Distinct: by hash of (initial text, operation sequence).",
             assumptions: vec!["lints with an identity equal to an ignored one at another place may be hidden or shown (the property demands neither)", "the reference lints come from a fresh linter of the same library"],
-            must_reach: vec!["c14_ignores", "c14_edits", "c14_roundtrips", "c14_checked_hidden", "c14_checked_reported", "ignored_lint_survived_edit", "c14_user_words_present"],
+            must_reach: vec!["c14_ignores", "c14_edits", "c14_roundtrips", "c14_checked_hidden", "c14_checked_reported", "ignored_lint_survived_edit", "c14_user_words_present", "c14_edits_next_to_neighbourhood"],
             real: vec!["harper-core IgnoredLints, LintContext, LintGroup, Document, parsers", "harper_wasm::Linter (native rlib): lint, ignore_lint, export/clear/import_ignored_lints", "server batch: harper-ls HarperIgnoreLint / DocumentState under lsp-sim (sequential sessions with edits, dictionary and configuration commands)"],
             stub: vec!["JS glue (JsValue methods) is not run", "the edit history and the identity model are the harness's"],
             watchdog_secs: 180,
